@@ -4,6 +4,7 @@ import (
 	"bytes"
 	"fmt"
 	"iter"
+	"net/netip"
 	"sort"
 	"strings"
 
@@ -279,7 +280,31 @@ var (
 	}
 )
 
-func indexerFor(k IndexKind) statedb.Indexer[*Obj] {
+// lnNetIndex is the "ln" index built with NetIPPrefixIndex instead of LPMIndex: the same prefixes as IPv4
+// netip.Prefix values. Half of the tables use it.
+var lnNetIndex = statedb.NetIPPrefixIndex[*Obj]{
+	Name: "ln",
+	FromObject: func(o *Obj) iter.Seq[netip.Prefix] {
+		return func(yield func(netip.Prefix) bool) {
+			for _, p := range o.LN {
+				if !yield(p.netip()) {
+					return
+				}
+			}
+		}
+	},
+	Unique: false,
+}
+
+func (p Pfx) netip() netip.Prefix {
+	d := p.data()
+	return netip.PrefixFrom(netip.AddrFrom4([4]byte{d[0], d[1], d[2], d[3]}), int(p.Len))
+}
+
+func indexerFor(k IndexKind, netIP bool) statedb.Indexer[*Obj] {
+	if k == IdxLPMMulti && netIP {
+		return lnNetIndex
+	}
 	switch k {
 	case IdxUnique:
 		return uIndex
@@ -309,7 +334,10 @@ func partQuery(k IndexKind, raw []byte) statedb.Query[*Obj] {
 	return idIndex.QueryFromKey(kk)
 }
 
-func lpmQuery(k IndexKind, p Pfx) statedb.Query[*Obj] {
+func lpmQuery(k IndexKind, p Pfx, netIP bool) statedb.Query[*Obj] {
+	if k == IdxLPMMulti && netIP {
+		return lnNetIndex.QueryPrefix(p.netip())
+	}
 	if k == IdxLPMUnique {
 		return luIndex.Query(p.data(), lpm.PrefixLen(p.Len))
 	}
